@@ -470,17 +470,21 @@ Proof.
 Qed.
 
 Lemma get_url_after_anchor_spec url host hs ae :
-  find_sub host url = Some hs -> 0 < ae <= length host ->
+  host_search_start url <= hs ->
+  find_sub host (drop (host_search_start url) url) = Some (hs - host_search_start url) ->
+  0 < ae <= length host ->
   get_url_after_anchor url host ae = drop (hs + ae) url.
 Proof.
-  intros F [Hae1 Hae2]. destruct (find_sub_split _ _ _ F) as (pre & post & E & Hpre).
+  intros Hle F [Hae1 Hae2]. destruct (find_sub_Some _ _ _ F) as [A _].
+  rewrite <- drop_add in A. replace (host_search_start url + (hs - host_search_start url)) with hs in A by lia.
+  apply prefixb_length in A. rewrite drop_length in A.
   unfold get_url_after_anchor, get_url_after_hostname. rewrite F.
   destruct (Nat.eqb ae 0) eqn:Z; [apply Nat.eqb_eq in Z; lia|].
-  rewrite drop_length.
-  assert (L : length url = hs + length host + length post) by (rewrite E, !app_length; lia).
-  destruct (Nat.leb (length url - (hs + length host) + (length host - ae)) (length url)) eqn:Hle.
+  rewrite !drop_length.
+  destruct (Nat.leb (length url - host_search_start url - (hs - host_search_start url + length host)
+                     + (length host - ae)) (length url)) eqn:Hl.
   - f_equal. lia.
-  - apply Nat.leb_gt in Hle. lia.
+  - apply Nat.leb_gt in Hl. lia.
 Qed.
 
 Lemma drop_in_host (pre host post : str) k : k <= length host ->
@@ -514,12 +518,37 @@ Lemma wf_request_split r hs : wf_request r hs ->
     (post = [] \/ exists b t, post = b :: t /\ is_sep b = true) /\
     no_nl (lower_str (r_url r)) = true.
 Proof.
-  intros (F & Hclean & Hpost & Hnl).
-  destruct (find_sub_split _ _ _ F) as (pre & post & E & Hpre).
-  exists pre, post. repeat split; auto.
-  - cbv zeta in Hpost. rewrite E in Hpost. rewrite <- Hpre in Hpost.
-    rewrite drop_in_host in Hpost by lia. rewrite drop_all' in Hpost by lia. exact Hpost.
+  intros (Hle & F & Hne & Hclean & Hpost & Hnl). cbv zeta in *.
+  destruct (find_sub_Some _ _ _ F) as [A _].
+  rewrite <- drop_add in A.
+  replace (host_search_start (lower_str (r_url r)) + (hs - host_search_start (lower_str (r_url r)))) with hs in A by lia.
+  pose proof (prefixb_length _ _ A) as L. rewrite drop_length in L.
+  apply prefixb_spec in A as [post E].
+  assert (Hhs : hs < length (lower_str (r_url r))).
+  { destruct (r_host r); [congruence|]. cbn [length] in L. lia. }
+  exists (take hs (lower_str (r_url r))), post.
+  assert (Lpre : length (take hs (lower_str (r_url r))) = hs) by (unfold take; rewrite firstn_length; lia).
+  assert (EU : lower_str (r_url r) = take hs (lower_str (r_url r)) ++ r_host r ++ post).
+  { rewrite <- E. symmetry. apply take_drop. }
+  split; [exact EU|]. split; [exact Lpre|]. split; [exact Hclean|]. split.
+  - assert (Ep : drop (hs + length (r_host r)) (lower_str (r_url r)) = post).
+    { rewrite drop_add, E. apply drop_app_length. }
+    rewrite Ep in Hpost. exact Hpost.
   - apply no_nl_lower. exact Hnl.
+Qed.
+
+Lemma wf_requestb_spec r hs : wf_requestb r hs = true -> wf_request r hs.
+Proof.
+  unfold wf_requestb, wf_request. cbv zeta. intros H.
+  apply andb_true_iff in H as [H H6]. apply andb_true_iff in H as [H H5].
+  apply andb_true_iff in H as [H H4]. apply andb_true_iff in H as [H H3].
+  apply andb_true_iff in H as [H1 H2].
+  split; [apply Nat.leb_le; exact H1|]. split.
+  { destruct (find_sub (r_host r) (drop (host_search_start (lower_str (r_url r))) (lower_str (r_url r)))) as [k|];
+      cbn in H2; [|discriminate]. apply Nat.eqb_eq in H2. congruence. }
+  split; [intros E; rewrite E in H3; discriminate|]. split; [exact H4|]. split; [|exact H6].
+  destruct (drop (hs + length (r_host r)) (lower_str (r_url r))) as [|b t]; [left; reflexivity|].
+  right. exists b, t. split; [reflexivity|exact H5].
 Qed.
 
 Lemma tail_after_occurrence (pre host post : str) o lh : o + lh <= length host ->
@@ -576,28 +605,6 @@ Proof.
   - destruct (ahe_some _ _ _ _ _ Hh E) as (o1 & -> & A1 & Hfirst). exists o1. split; [reflexivity|].
     split; [|exact A1]. destruct (Nat.le_gt_cases o1 o) as [L|L]; [exact L|]. exfalso. exact (Hfirst o L A).
   - apply ahe_none in E as [_ E]. exfalso. exact (E o A).
-Qed.
-
-Lemma start_label_split (pre h rest : str) :
-  (Nat.eqb (length pre) 0 || head_is DOT h || N.eqb (nthb (pre ++ rest) (length pre - 1)) DOT)
-  = (nullb pre || head_is DOT h || last_is DOT pre).
-Proof.
-  destruct pre as [|x pre]; [reflexivity|].
-  change (Nat.eqb (length (x :: pre)) 0) with false. cbn [nullb orb].
-  f_equal. unfold last_is, nthb. rewrite last_nth by discriminate.
-  rewrite app_nth1 by (cbn [length]; lia). reflexivity.
-Qed.
-
-Lemma suffix_anchor h (pre' : str) : h <> [] -> suffix_mid_label h (pre' ++ h) = false ->
-  anchor_atb h (pre' ++ h) false false (length pre') = true.
-Proof.
-  intros Hh Hmid. unfold suffix_mid_label in Hmid.
-  assert (Hs : suffixb h (pre' ++ h) = true) by (apply suffixb_spec; exists pre'; reflexivity).
-  rewrite Hs in Hmid. cbn [andb] in Hmid. apply negb_false_iff in Hmid. cbv zeta in Hmid.
-  replace (length (pre' ++ h) - length h) with (length pre') in Hmid by (rewrite app_length; lia).
-  rewrite start_label_split in Hmid.
-  replace (pre' ++ h) with (pre' ++ h ++ []) by (rewrite app_nil_r; reflexivity).
-  rewrite anchor_atb_split by exact Hh. rewrite Hmid. reflexivity.
 Qed.
 
 Section HostPaths.
@@ -659,27 +666,22 @@ Section HostPaths.
     - intros (o & A & _). destruct (ahe_exists _ _ _ _ _ Hh A) as (o1 & E & _). rewrite E. reflexivity.
   Qed.
 
-  (* ||host^ : the parsed rule has no pattern and a right anchor *)
-  Lemma hn_caret h : h <> [] -> suffix_mid_label h H = false ->
-    ((match anchored_hostname_end h H false false with
-      | Some ae => Nat.eqb ae (length H) || suffixb h H | None => false end) = true
+  (* ||host^ : the parsed rule has no pattern and a right anchor; the occurrence has to end the
+     request hostname *)
+  Lemma hn_caret h w : h <> [] ->
+    ((match anchored_hostname_end h H w true with Some _ => true | None => false end) = true
      <-> exists o, anchor_at h H false false o /\ m false [PSep] (drop (hs + o + length h) U)).
   Proof.
-    intros Hh Hmid. destruct (wf_request_split _ _ Hwf) as (pre & post & EU & Lpre & Hclean & Hpost & _).
+    intros Hh. destruct (wf_request_split _ _ Hwf) as (pre & post & EU & Lpre & Hclean & Hpost & _).
     fold U H in EU, Hclean.
     assert (Hafter : forall o, o + length h = length H -> m false [PSep] (drop (hs + o + length h) U)).
     { intros o Ho. rewrite EU, <- Lpre. rewrite tail_after_occurrence by lia.
       rewrite drop_all' by lia. apply sep_at_host_end. exact Hpost. }
     split.
-    - destruct (anchored_hostname_end h H false false) as [ae|] eqn:E; [|discriminate]. intros Hor.
-      destruct (ahe_some _ _ _ _ _ Hh E) as (o1 & -> & A1 & _).
-      apply orb_true_iff in Hor as [Hae|Hsuf].
-      + apply Nat.eqb_eq in Hae. exists o1. split; [exact A1|]. apply Hafter. exact Hae.
-      + pose proof Hsuf as Hsuf'. apply suffixb_spec in Hsuf as [pre' EH].
-        exists (length pre'). split.
-        * apply anchor_atb_spec; [exact Hh|]. revert Hmid. rewrite EH. intros Hmid.
-          apply suffix_anchor; assumption.
-        * apply Hafter. rewrite EH, app_length. lia.
+    - destruct (anchored_hostname_end h H w true) as [ae|] eqn:E; [|discriminate]. intros _.
+      destruct (ahe_some _ _ _ _ _ Hh E) as (o1 & _ & A1 & _).
+      pose proof (anchor_at_end_post _ _ _ _ A1) as Hend.
+      exists o1. split; [exact (anchor_at_at_end _ _ _ _ false false _ A1 Hend)|]. apply Hafter. exact Hend.
     - intros (o & A & Hm).
       pose proof (anchor_at_bound _ _ _ _ _ Hh A) as Hbound.
       assert (Hend : o + length h = length H).
@@ -687,12 +689,8 @@ Section HostPaths.
         rewrite EU, <- Lpre in Hm. rewrite tail_after_occurrence in Hm by exact Hbound.
         destruct (host_byte_blocks H post (o + length h) Hclean ltac:(lia)) as (b & t & Eb & Hs).
         rewrite Eb in Hm. exact (body_sep_blocked _ [PSep] _ _ eq_refl Hs Hm). }
-      destruct (ahe_exists _ _ _ _ _ Hh A) as (o1 & E & _). rewrite E.
-      apply orb_true_iff. right. apply suffixb_spec.
-      destruct A as (pre' & post' & EH & Lp & _). exists pre'.
-      assert (post' = []) as ->.
-      { rewrite EH, !app_length in Hend. destruct post'; [reflexivity|cbn in Hend; lia]. }
-      rewrite app_nil_r in EH. exact EH.
+      pose proof (anchor_at_at_end _ _ _ _ w true _ A Hend) as A'.
+      destruct (ahe_exists _ _ _ _ _ Hh A') as (o1 & E & _). rewrite E. reflexivity.
   Qed.
 End HostPaths.
 
@@ -711,7 +709,7 @@ Section Dispatch.
   Proof.
     intros Hf Hrx Hcr [Hok Hm] Hnl. unfold regex_manager_matches. rewrite Hrx, Hcr. cbn [negb andb].
     unfold compile_regex. cbn [compile_pats]. destruct f as [|x f]; [congruence|]. cbn [nullb].
-    cbn [is_match forallb existsb]. rewrite Hok, (Hm s Hnl). cbn [andb]. apply orb_false_r.
+    cbn [is_match]. rewrite Hok, (Hm s Hnl). reflexivity.
   Qed.
 
   (* the five hostname-anchored functions, for a parsed rule with a pattern: one normal form *)
@@ -729,13 +727,13 @@ Section Dispatch.
   Proof.
     intros Hwf Hh Hf Hhn Hcr Hmc Hrx Hnd Hre.
     destruct (wf_request_split _ _ Hwf) as (pre & post & EU & Lpre & _ & _ & Hnl).
-    destruct Hwf as (F & _).
+    destruct Hwf as (Hle & F & _). cbv zeta in Hle, F.
     destruct sh as [hn rx cr la ra wild mc]. cbn [s_hn s_rx s_cr s_la s_ra s_wild s_mc] in *. subst hn cr mc.
     unfold check_pattern_sh, check_pattern_hostname_anchor_regex_filter,
       check_pattern_hostname_left_right_anchor_filter, check_pattern_hostname_right_anchor_filter,
       check_pattern_hostname_left_anchor_filter, check_pattern_hostname_anchor_filter,
       check_pattern_right_anchor_filter, check_pattern_regex_filter_at, at_hostname_end, get_url.
-    cbn [s_hn s_rx s_cr s_la s_ra s_wild s_mc nullb negb]. rewrite andb_true_r.
+    cbn [s_hn s_rx s_cr s_la s_ra s_wild s_mc nullb negb orb]. rewrite andb_true_r.
     assert (Hafter : forall ae, anchored_hostname_end h (r_host r) wild la = Some ae ->
               get_url_after_anchor (lower_str (r_url r)) (r_host r) ae = drop (hs + ae) (lower_str (r_url r))
               /\ hs + ae <= length (lower_str (r_url r))).
@@ -762,13 +760,12 @@ Section Dispatch.
     wf_fields sh filter hostname = true ->
     nondegenerate_fields sh filter hostname = true ->
     wf_request r hs ->
-    suffix_mid_label_case sh filter hostname r = false ->
     (forall f, filter = Some f -> s_rx sh = true ->
                re_std re_ok re_match (translate f (s_la sh) (s_ra sh)) (s_la sh) (s_ra sh) (toks f)) ->
     (check_pattern_sh re_ok re_match sh (fs_of filter) hostname r = true <->
      ref_match (ast_of_fields sh filter hostname) (lower_str (r_url r)) (r_host r) hs).
   Proof.
-    intros Hwff Hnd Hwf Hmid Hre.
+    intros Hwff Hnd Hwf Hre.
     unfold wf_fields in Hwff. unfold nondegenerate_fields in Hnd.
     apply andb_true_iff in Hwff as [Hwff Hhost]. apply andb_true_iff in Hwff as [Hwff Hfilt].
     apply andb_true_iff in Hwff as [Hcr Hmc]. apply negb_true_iff in Hcr. apply negb_true_iff in Hmc.
@@ -814,13 +811,12 @@ Section Dispatch.
       + destruct hostname as [h|]; [|discriminate].
         apply negb_true_iff in Hnd2. assert (Hh : h <> []) by (intros ->; discriminate).
         unfold ast_of_fields, ref_match. rewrite Hhn. cbn [pa_left pa_body pa_right starts_with_star].
-        unfold suffix_mid_label_case in Hmid. rewrite Hhn, Hla, Hrx in Hmid. cbn [andb negb] in Hmid.
         destruct sh as [hn rx cr la ra wild mc]. cbn [s_hn s_rx s_cr s_la s_ra s_wild s_mc] in *. subst hn rx cr la mc.
         unfold check_pattern_sh, check_pattern_hostname_right_anchor_filter, check_pattern_hostname_anchor_filter,
           at_hostname_end.
-        cbn [s_hn s_rx s_cr s_la s_ra s_wild s_mc nullb negb andb].
+        cbn [s_hn s_rx s_cr s_la s_ra s_wild s_mc nullb negb andb orb].
         destruct ra; cbn [andb].
-        * destruct wild; [discriminate Hnd0|]. apply (hn_caret r hs Hwf h Hh). exact Hmid.
+        * apply (hn_caret r hs Hwf h wild Hh).
         * destruct wild; [discriminate Hnd0|]. apply (hn_bare r hs h Hh).
       + unfold ast_of_fields, ref_match. rewrite Hhn, Hla. cbn [pa_left pa_body pa_right body_of].
         destruct sh as [hn rx cr la ra wild mc]. cbn [s_hn s_rx s_cr s_la s_ra s_wild s_mc] in *. subst hn rx cr la mc.
@@ -1006,6 +1002,13 @@ Qed.
 Theorem mask_bits_independent sh : shape_of_mask (mask_of_shape sh) = sh.
 Proof. destruct sh as [[] [] [] [] [] [] []]; vm_compute; reflexivity. Qed.
 
+(* the three facts about the parsed fields of a line that the parser has to establish *)
+Definition parse_ok (line : str) : bool :=
+  let pf := parse_line line in
+  wf_fields (pf_shape pf) (pf_filter pf) (pf_hostname pf)
+  && nondegenerate_fields (pf_shape pf) (pf_filter pf) (pf_hostname pf)
+  && past_eqb (ast_of_fields (pf_shape pf) (pf_filter pf) (pf_hostname pf)) (ast_of_text line).
+
 (* ---- witnesses ---- *)
 Definition no_re_ok : str -> bool := fun _ => true.
 Definition no_re_match : str -> str -> bool := fun _ _ => false.
@@ -1025,54 +1028,28 @@ Lemma host_right_pipe_witness :
   ~ ref_match (ast_of_text line) url host 8.
 Proof.
   cbv zeta. split; [vm_compute; reflexivity|]. split; [vm_compute; reflexivity|].
-  split.
-  { split; [vm_compute; reflexivity|]. split; [vm_compute; reflexivity|]. split; [|vm_compute; reflexivity].
-    right. vm_compute. eexists. eexists. split; reflexivity. }
+  split; [apply wf_requestb_spec; vm_compute; reflexivity|].
   split; [vm_compute; reflexivity|].
   intros H. apply ref_matchb_spec in H; [vm_compute in H; discriminate|].
   intros h E. vm_compute in E. inversion E. discriminate.
 Qed.
 
-(* `||h^`: ends_with(h) without a label-start test *)
-Lemma suffix_mid_label_witness :
-  let line := bs "||ads.net^" in
-  let url := bs "https://ads.net.xads.net/x" in
-  let host := bs "ads.net.xads.net" in
-  let pf := parse_line line in
-  let r := {| r_url := url; r_host := host |} in
-  nondegenerate_text line = true /\ host_right_pipe line = false /\
-  wf_fields (pf_shape pf) (pf_filter pf) (pf_hostname pf) = true /\
-  nondegenerate_fields (pf_shape pf) (pf_filter pf) (pf_hostname pf) = true /\
-  past_eqb (ast_of_fields (pf_shape pf) (pf_filter pf) (pf_hostname pf)) (ast_of_text line) = true /\
-  wf_request r 8 /\
-  suffix_mid_label_case (pf_shape pf) (pf_filter pf) (pf_hostname pf) r = true /\
-  cp_line line url host = true /\
-  ~ ref_match (ast_of_text line) url host 8.
-Proof.
-  cbv zeta. repeat (split; [vm_compute; reflexivity|]).
-  split.
-  { split; [vm_compute; reflexivity|]. split; [vm_compute; reflexivity|]. split; [|vm_compute; reflexivity].
-    right. vm_compute. eexists. eexists. split; reflexivity. }
-  split; [vm_compute; reflexivity|]. split; [vm_compute; reflexivity|].
-  intros H. apply ref_matchb_spec in H; [vm_compute in H; discriminate|].
-  intros h E. vm_compute in E. inversion E. discriminate.
-Qed.
-
-(* the request hostname occurs in the URL before the host (here inside "https"): the remainder is
-   cut after the wrong occurrence *)
-Lemma host_in_url_prefix_witness :
-  let line := bs "||t/x" in
-  let url := bs "https://t/x" in
-  let host := bs "t" in
-  nondegenerate_text line = true /\ host_right_pipe line = false /\
-  find_sub host url = Some 1%nat /\
-  cp_line line url host = false /\
-  ref_match (ast_of_text line) url host 8.
-Proof.
-  cbv zeta. repeat (split; [vm_compute; reflexivity|]).
-  apply ref_matchb_spec; [|vm_compute; reflexivity].
-  intros h E. vm_compute in E. inversion E. discriminate.
-Qed.
+(* repaired in /repo (the witnesses of the former findings now agree with the reference):
+   ||ads.net^ on a host that ends in "ads.net" in the middle of a label; a hostname that also
+   occurs in the scheme; ||WWW.host *)
+Example suffix_mid_label_fixed :
+  cp_line (bs "||ads.net^") (bs "https://ads.net.xads.net/x") (bs "ads.net.xads.net") = false
+  /\ ref_matchb (ast_of_text (bs "||ads.net^")) (bs "https://ads.net.xads.net/x") (bs "ads.net.xads.net") 8 = false.
+Proof. split; vm_compute; reflexivity. Qed.
+Example host_in_url_prefix_fixed :
+  wf_request {| r_url := bs "https://t/x"; r_host := bs "t" |} 8
+  /\ cp_line (bs "||t/x") (bs "https://t/x") (bs "t") = true
+  /\ ref_matchb (ast_of_text (bs "||t/x")) (bs "https://t/x") (bs "t") 8 = true.
+Proof. split; [apply wf_requestb_spec; vm_compute; reflexivity|]. split; vm_compute; reflexivity. Qed.
+Example www_strip_case_fixed :
+  parse_ok (bs "||WWW.ads.net^") = true
+  /\ cp_line (bs "||WWW.ads.net^") (bs "https://ads.net/x") (bs "ads.net") = true.
+Proof. split; vm_compute; reflexivity. Qed.
 
 (* the hypotheses of check_pattern_ref are satisfiable on a non-trivial rule and request: a
    hostname-anchored regex rule, with a regex oracle that implements the standard semantics *)
@@ -1080,21 +1057,18 @@ Example check_pattern_ref_example :
   let line := bs "||ads.net^banner*.js" in
   let pf := parse_line line in
   let sh := pf_shape pf in
-  let r := {| r_url := bs "https://xads.net.ads.net/banner/160x600.js?x"; r_host := bs "xads.net.ads.net" |} in
+  let r := {| r_url := bs "https://user@xads.net.ads.net/banner/160x600.js?x"; r_host := bs "xads.net.ads.net" |} in
   let re_match := fun (_ : str) s => search (s_la sh) (s_ra sh) (body_of (pf_filter pf)) s in
   wf_fields sh (pf_filter pf) (pf_hostname pf) = true /\
   nondegenerate_fields sh (pf_filter pf) (pf_hostname pf) = true /\
-  wf_request r 8 /\
-  suffix_mid_label_case sh (pf_filter pf) (pf_hostname pf) r = false /\
+  wf_request r 13 /\
   (forall f, pf_filter pf = Some f -> s_rx sh = true ->
              re_std no_re_ok re_match (translate f (s_la sh) (s_ra sh)) (s_la sh) (s_ra sh) (toks f)) /\
   check_pattern_sh no_re_ok re_match sh (fs_of (pf_filter pf)) (pf_hostname pf) r = true.
 Proof.
   cbv zeta. split; [vm_compute; reflexivity|]. split; [vm_compute; reflexivity|].
-  split.
-  { split; [vm_compute; reflexivity|]. split; [vm_compute; reflexivity|]. split; [|vm_compute; reflexivity].
-    right. vm_compute. eexists. eexists. split; reflexivity. }
-  split; [vm_compute; reflexivity|]. split; [|vm_compute; reflexivity].
+  split; [apply wf_requestb_spec; vm_compute; reflexivity|].
+  split; [|vm_compute; reflexivity].
   intros f Ef _. split; [reflexivity|]. intros s _.
   vm_compute in Ef. inversion Ef; subst f. reflexivity.
 Qed.
@@ -1118,12 +1092,6 @@ Proof.
   destruct la, lb; cbn in H1; try discriminate; try reflexivity. apply str_eqb_eq in H1. congruence.
 Qed.
 
-(* the three facts about the parsed fields of a line that the parser has to establish *)
-Definition parse_ok (line : str) : bool :=
-  let pf := parse_line line in
-  wf_fields (pf_shape pf) (pf_filter pf) (pf_hostname pf)
-  && nondegenerate_fields (pf_shape pf) (pf_filter pf) (pf_hostname pf)
-  && past_eqb (ast_of_fields (pf_shape pf) (pf_filter pf) (pf_hostname pf)) (ast_of_text line).
 
 Section Line.
   Variable re_ok : str -> bool.
@@ -1133,14 +1101,13 @@ Section Line.
     let pf := parse_line line in
     parse_ok line = true ->
     wf_request r hs ->
-    suffix_mid_label_case (pf_shape pf) (pf_filter pf) (pf_hostname pf) r = false ->
     (forall f, pf_filter pf = Some f -> s_rx (pf_shape pf) = true ->
                re_std re_ok re_match (translate f (s_la (pf_shape pf)) (s_ra (pf_shape pf)))
                       (s_la (pf_shape pf)) (s_ra (pf_shape pf)) (toks f)) ->
     (check_pattern_sh re_ok re_match (pf_shape pf) (fs_of (pf_filter pf)) (pf_hostname pf) r = true <->
      ref_match (ast_of_text line) (lower_str (r_url r)) (r_host r) hs).
   Proof.
-    cbv zeta. intros Hok Hwf Hmid Hre. unfold parse_ok in Hok.
+    cbv zeta. intros Hok Hwf Hre. unfold parse_ok in Hok.
     apply andb_true_iff in Hok as [Hok H3]. apply andb_true_iff in Hok as [H1 H2].
     apply past_eqb_eq in H3. rewrite <- H3. apply check_pattern_ref; assumption.
   Qed.
@@ -1177,7 +1144,7 @@ Proof.
   unfold parse_claim in H. rewrite Hn, Hp in H. exact H.
 Qed.
 
-(* ---- the refutations in existential form ---- *)
+(* ---- the refutation in existential form ---- *)
 Lemma host_right_pipe_refuted :
   exists line url host hs,
     host_right_pipe line = true /\ nondegenerate_text line = true /\
@@ -1185,55 +1152,13 @@ Lemma host_right_pipe_refuted :
     cp_line line url host = true /\ ~ ref_match (ast_of_text line) url host hs.
 Proof. eexists; eexists; eexists; eexists; exact host_right_pipe_witness. Qed.
 
-Lemma suffix_mid_label_refuted :
-  exists line url host hs,
-    nondegenerate_text line = true /\ host_right_pipe line = false /\ parse_ok line = true /\
-    wf_request {| r_url := url; r_host := host |} hs /\
-    cp_line line url host = true /\ ~ ref_match (ast_of_text line) url host hs.
-Proof.
-  exists (bs "||ads.net^"), (bs "https://ads.net.xads.net/x"), (bs "ads.net.xads.net"), 8.
-  destruct suffix_mid_label_witness as (A & B & C & D & E & F & G & H & I).
-  split; [exact A|]. split; [exact B|]. split; [vm_compute; reflexivity|].
-  split; [exact F|]. split; [exact H|exact I].
-Qed.
-
-Lemma host_in_url_prefix_refuted :
-  exists line url host hs,
-    nondegenerate_text line = true /\ host_right_pipe line = false /\
-    find_sub host url <> Some hs /\
-    cp_line line url host = false /\ ref_match (ast_of_text line) url host hs.
-Proof.
-  exists (bs "||t/x"), (bs "https://t/x"), (bs "t"), 8.
-  destruct host_in_url_prefix_witness as (A & B & C & D & E).
-  split; [exact A|]. split; [exact B|]. split; [rewrite C; discriminate|]. split; [exact D|exact E].
-Qed.
-
 Theorem check_pattern_ref_mask : forall re_ok re_match mask filter hostname r hs,
   let sh := shape_of_mask mask in
   wf_fields sh filter hostname = true ->
   nondegenerate_fields sh filter hostname = true ->
   wf_request r hs ->
-  suffix_mid_label_case sh filter hostname r = false ->
   (forall f, filter = Some f -> s_rx sh = true ->
              re_std re_ok re_match (translate f (s_la sh) (s_ra sh)) (s_la sh) (s_ra sh) (toks f)) ->
   (check_pattern re_ok re_match mask (fs_of filter) hostname r = true <->
    ref_match (ast_of_fields sh filter hostname) (lower_str (r_url r)) (r_host r) hs).
 Proof. intros re_ok re_match mask. exact (check_pattern_ref re_ok re_match (shape_of_mask mask)). Qed.
-
-(* "www." is stripped before lower-casing: two spellings that differ only in case differ in meaning *)
-Lemma www_strip_case_refuted :
-  exists line url host hs,
-    nondegenerate_text line = true /\ host_right_pipe line = false /\ www_strip_case line = true /\
-    wf_request {| r_url := url; r_host := host |} hs /\
-    cp_line line url host = false /\ ref_match (ast_of_text line) url host hs /\
-    cp_line (lower_str line) url host = true.
-Proof.
-  exists (bs "||WWW.ads.net^"), (bs "https://ads.net/x"), (bs "ads.net"), 8.
-  repeat (split; [vm_compute; reflexivity|]).
-  split.
-  { split; [vm_compute; reflexivity|]. split; [vm_compute; reflexivity|]. split; [|vm_compute; reflexivity].
-    right. vm_compute. eexists. eexists. split; reflexivity. }
-  split; [vm_compute; reflexivity|]. split; [|vm_compute; reflexivity].
-  apply ref_matchb_spec; [|vm_compute; reflexivity].
-  intros h E. vm_compute in E. inversion E. discriminate.
-Qed.
